@@ -396,9 +396,9 @@ def run_module(rec, named, nforests, quick):
 
 def run_shard(rec):
     quick = rec.tier == 'quick'
-    rec.deadline = time.time() + (30 if quick else 240)
-    run_module(rec, named=False, nforests=12 if quick else 200, quick=quick)
-    run_module(rec, named=True, nforests=12 if quick else 200, quick=quick)
+    rec.deadline = time.time() + (30 if quick else 600)
+    run_module(rec, named=False, nforests=12 if quick else 2500, quick=quick)
+    run_module(rec, named=True, nforests=12 if quick else 2500, quick=quick)
 
 
 def replay(rec, rep):
